@@ -1280,6 +1280,17 @@ Lemma upd_absv_same st i : upd (absv st) i (content (hp st) (getv st i)) = absv 
 Proof. rewrite <- nth_absv. apply upd_same. Qed.
 End StepProofs.
 
+Lemma dropN_app_len (y r : bytes) : dropN (lenN y) (y ++ r) = r.
+Proof.
+  induction y as [|a y IH]; cbn [lenN app dropN]; [apply dropN_0|].
+  destruct (N.succ (lenN y) =? 0) eqn:E; [lia|]. rewrite N.pred_succ. exact IH.
+Qed.
+Lemma takeN_app_len (c x : bytes) : takeN (lenN c) (c ++ x) = c.
+Proof.
+  induction c as [|a c IH]; cbn [lenN app takeN]; [apply takeN_0|].
+  destruct (N.succ (lenN c) =? 0) eqn:E; [lia|]. rewrite N.pred_succ, IH. reflexivity.
+Qed.
+
 (* ---- trim ---- *)
 Lemma trim_end_noalias R rc : trim_end_loop false R rc = dropwhile (fun c => memb c R) rc.
 Proof.
@@ -1522,9 +1533,9 @@ Proof.
       change (nth src (vars st) sb0) with s in G. rewrite dl_eq in G by reflexivity. lia. }
     assert (Bs : bsize (getb h1 (sstore s)) = bsize (getb (hp st) (sstore s))).
     { unfold bsize, h1. rewrite bdata_lock by assumption. reflexivity. }
-    destruct (chop_shared h1 s 0 k B1 Lb ltac:(lia)) as (X1 & X2 & X3 & X4).
+    destruct (chop_shared alloc_cap h1 s 0 k B1 Lb ltac:(lia)) as (X1 & X2 & X3 & X4).
     destruct (sb_chop h1 s 0 k) as [h1' rv]. cbn [fst snd] in X1, X2, X3, X4. subst h1'.
-    destruct (chop_shared h1 s k npos B1 Lb ltac:(lia)) as (Y1 & Y2 & Y3 & Y4).
+    destruct (chop_shared alloc_cap h1 s k npos B1 Lb ltac:(lia)) as (Y1 & Y2 & Y3 & Y4).
     destruct (sb_chop h1 s k npos) as [h2 s']. cbn [fst snd] in Y1, Y2, Y3, Y4. subst h2.
     cbn [fst snd spec_after spec_vals]. rewrite Ek.
     assert (I2 : Inv h1 (upd (vars st) src s') (exadd ex0 (sstore s))).
@@ -1533,21 +1544,21 @@ Proof.
     { split; [rewrite X2; unfold h1; rewrite length_lock; assumption|rewrite X2; assumption]. }
     rewrite <- X2 in I2.
     destruct (move_into_spec h1 (upd (vars st) src s') ex0 d rv I2 ltac:(rewrite length_upd; assumption) Wrv) as [M1 M2].
+    unfold move_into in M1, M2 |- *. cbn [hp vars] in M1, M2 |- *.
     split; [exact M1|]. split; [discriminate|].
-    rewrite length_upd in M2. unfold absv at 1.
-    rewrite (absv_same h1 _ _ ).
-    2:{ intros j Hj. unfold move_into in Hj; cbn [vars] in Hj. rewrite !length_upd in Hj. exact (M2 j Hj). }
-    unfold absv.
+    rewrite length_upd in M2. unfold absv; cbn [hp vars].
+    etransitivity; [apply absv_same; intros j Hj; rewrite ?length_upd in Hj; exact (M2 j Hj)|].
     assert (Cl : forall x, content h1 x = content (hp st) x) by (intros x; apply content_lock; assumption).
     rewrite (absv_upd (hp st) h1 (upd (vars st) src s') d rv (takeN k (nth src (absv st) []))).
     + f_equal. apply (absv_upd (hp st) (hp st) (vars st) src s'); [assumption|intros j _ _; reflexivity|].
-      rewrite <- Cl, Y4, Cl. rewrite nth_absv. fold s.
+      rewrite <- Cl, Y4, Cl. rewrite ?nth_absv, ?nth_map_content. change (nth src (vars st) sb0) with s. fold s.
       rewrite takeN_all by (rewrite lenN_dropN, Lc; unfold npos, gen_npos, two32 in *; lia). reflexivity.
     + rewrite length_upd. assumption.
     + intros j _ _. apply Cl.
-    + rewrite X4, Cl, dropN_0, nth_absv. reflexivity.
+    + rewrite X4, Cl, dropN_0, ?nth_absv, ?nth_map_content. reflexivity.
   - (* OChp *)
-    rewrite (sb_chop_fields _ _ _ _ (var_len_bound _ _ _ i I C)).
+    pose proof (var_len_bound _ _ _ i I C) as Lb. change (nth i (vars st) sb0) with (getv st i) in Lb.
+    rewrite (sb_chop_fields _ _ _ _ Lb).
     set (s := getv st i) in *. set (p' := N.min pos (slen s)). set (n' := N.min n (slen s - p')).
     destruct (wf_getv st i I C) as [W1 W2]. fold s in W1, W2.
     assert (Cl : takeN n (dropN pos (nth i (absv st) [])) = window (soff s + p') n' (bdata (getb (hp st) (sstore s)))).
@@ -1576,19 +1587,20 @@ Proof.
       change (nth src (vars st) sb0) with s in G. rewrite dl_eq in G by reflexivity. lia. }
     assert (Bs : bsize (getb h1 (sstore s)) = bsize (getb (hp st) (sstore s))).
     { unfold bsize, h1. rewrite bdata_lock by assumption. reflexivity. }
-    destruct (chop_shared h1 s pos n B1 Lb ltac:(lia)) as (X1 & X2 & X3 & X4).
+    destruct (chop_shared alloc_cap h1 s pos n B1 Lb ltac:(lia)) as (X1 & X2 & X3 & X4).
     destruct (sb_chop h1 s pos n) as [h1' rv]. cbn [fst snd] in X1, X2, X3, X4. subst h1'.
     cbn [fst snd spec_after spec_vals].
     assert (Wrv : wf h1 rv).
     { split; [rewrite X2; unfold h1; rewrite length_lock; assumption|rewrite X2; assumption]. }
     rewrite <- X2 in I1.
     destruct (move_into_spec h1 (vars st) ex0 d rv I1 Hd Wrv) as [M1 M2].
+    unfold move_into in M1, M2 |- *. cbn [hp vars] in M1, M2 |- *.
     split; [exact M1|]. split; [discriminate|].
-    unfold absv at 1. rewrite (absv_same h1 _ _).
-    2:{ intros j Hj. unfold move_into in Hj; cbn [vars] in Hj. rewrite length_upd in Hj. exact (M2 j Hj). }
+    unfold absv; cbn [hp vars].
+    etransitivity; [apply absv_same; intros j Hj; rewrite ?length_upd in Hj; exact (M2 j Hj)|].
     assert (Cl : forall x, content h1 x = content (hp st) x) by (intros x; apply content_lock; assumption).
-    unfold absv. apply (absv_upd (hp st) h1 (vars st) d rv); [assumption|intros j _ _; apply Cl|].
-    rewrite X4, Cl, nth_absv. reflexivity.
+    apply (absv_upd (hp st) h1 (vars st) d rv); [assumption|intros j _ _; apply Cl|].
+    rewrite X4, Cl, ?nth_absv, ?nth_map_content. reflexivity.
   - (* OTrm *)
     destruct C as [Hi Hj]. set (s := getv st i). set (R := content (hp st) (getv st j)).
     destruct (wf_getv st i I Hi) as [W1 W2]. fold s in W1, W2.
@@ -1605,9 +1617,7 @@ Proof.
     assert (Cw : window (soff s2) (slen s2) (bdata (getb (hp st) (sstore s))) = c2).
     { cbn [soff slen s2]. rewrite <- T3.
       rewrite <- (window_window (soff s) (slen s) (lenN y) (lenN c2)) by lia.
-      rewrite <- content_window, T2. unfold window. rewrite dropN_skipn, takeN_firstn, lenN_length.
-      rewrite Nat2N.id, skipn_app, skipn_all, Nat.sub_diag. cbn [skipn app].
-      rewrite firstn_app, lenN_length, Nat2N.id, firstn_all, Nat.sub_diag. cbn [firstn]. now rewrite app_nil_r. }
+      rewrite <- content_window, T2. unfold window. rewrite dropN_app_len, takeN_app_len. reflexivity. }
     assert (Sv : spec_vals (absv st) (OTrm i j atBeginning atEnd) = upd (absv st) i c2).
     { cbn [spec_vals]. rewrite !nth_absv. fold s R. rewrite <- T1. reflexivity. }
     destruct (slen s2 =? 0) eqn:E0.
@@ -1666,7 +1676,7 @@ Proof.
     destruct (sb_rawAppend alloc_cap (hp st) (getv st i) n w) as [h1 s1|h1 s1|h1 s1|]; [| | |contradiction];
       destruct R as (R1 & R2 & R3); cbn [fst snd spec_after spec_vals spec_throw].
     + split; [exact R1|]. split; [discriminate|]. unfold absv; cbn [hp vars].
-      rewrite (absv_upd _ _ _ _ _ _ Hi R2 R3). now rewrite nth_absv.
+      rewrite (absv_upd _ _ _ _ _ _ Hi R2 R3). rewrite ?nth_absv, ?nth_map_content. reflexivity.
     + split; [exact R1|]. split; [discriminate|]. unfold absv; cbn [hp vars].
       rewrite (absv_upd _ _ _ _ _ _ Hi R2 R3). apply upd_absv_same.
     + split; [exact R1|]. split; [discriminate|]. unfold absv; cbn [hp vars].
@@ -1685,3 +1695,88 @@ Proof.
     + destruct (run_query st i q); reflexivity.
 Qed.
 End StepProofs2.
+
+(* ------------------------------------------------------------------ *)
+(* operation sequences                                                 *)
+(* ------------------------------------------------------------------ *)
+Section Runs.
+Variable alloc_cap : N -> N.
+
+Fixpoint run (st : state) (ops : list op) : state * list out :=
+  match ops with
+  | [] => (st, [])
+  | o :: r => let '(st1, x) := step alloc_cap st o in let '(st2, xs) := run st1 r in (st2, x :: xs)
+  end.
+Fixpoint covered_run (st : state) (ops : list op) : Prop :=
+  match ops with
+  | [] => True
+  | o :: r => covered st o /\ covered_run (fst (step alloc_cap st o)) r
+  end.
+(* the same sequence on independent values, given which operations threw / were skipped *)
+Fixpoint spec_run (vals : list bytes) (ops : list op) (outs : list out) : list bytes :=
+  match ops, outs with
+  | o :: r, x :: xs => spec_run (spec_after vals o x) r xs
+  | _, _ => vals
+  end.
+
+Theorem run_refines ops : forall st, SInv st -> covered_run st ops ->
+  SInv (fst (run st ops)) /\ Forall (fun x => x <> RUndef) (snd (run st ops)) /\
+  absv (fst (run st ops)) = spec_run (absv st) ops (snd (run st ops)).
+Proof.
+  induction ops as [|o r IH]; intros st I C; cbn [run covered_run spec_run] in *.
+  - cbn [fst snd]. auto.
+  - destruct C as [C1 C2]. destruct (step_refines alloc_cap st o I C1) as (S1 & S2 & S3).
+    destruct (step alloc_cap st o) as [st1 x]. cbn [fst snd] in *.
+    destruct (IH st1 S1 C2) as (R1 & R2 & R3). destruct (run st1 r) as [st2 xs]. cbn [fst snd] in *.
+    split; [assumption|]. split; [constructor; assumption|]. rewrite R3, S3. reflexivity.
+Qed.
+
+Lemma refs_repeat n id : refs (repeat sb0 n) id = dl 0 id * N.of_nat n.
+Proof. induction n as [|n IH]; cbn [repeat refs sstore sb0]; [lia|]. rewrite IH. lia. Qed.
+
+Theorem init_inv nv : SInv (init_state alloc_cap nv).
+Proof.
+  unfold SInv, init_state; cbn [hp vars]. constructor.
+  - intros id H. cbn [length] in H. assert (id = 0%nat) as -> by lia. cbn [getb nth blocks].
+    rewrite refs_repeat. unfold ex0. rewrite !dl_eq by reflexivity. lia.
+  - intros id H. cbn [length] in H. unfold ex0. apply dl_neq. lia.
+  - intros j Hj. rewrite nth_repeat. split; cbn [sstore soff slen sb0 length]; [lia|]. lia.
+  - intros id H. cbn [length] in H. assert (id = 0%nat) as -> by lia. unfold bsize; cbn [getb nth bdata bcap lenN]. lia.
+  - intros id H. cbn [length] in H. assert (id = 0%nat) as -> by lia. cbn [getb nth bcap]. apply N.mod_lt. unfold two32; lia.
+Qed.
+
+Theorem init_absv nv : absv (init_state alloc_cap nv) = repeat [] nv.
+Proof.
+  unfold absv, init_state; cbn [hp vars]. generalize (1 + N.of_nat nv). intros b.
+  induction nv as [|n IH]; cbn [repeat map]; [reflexivity|]. rewrite IH, content_sb0. reflexivity.
+Qed.
+End Runs.
+
+Definition hello : bytes := [104; 101; 108; 108; 111; 32; 119; 111; 114; 108; 100].
+
+(* the <cctype> maps used by toLower()/toUpper() and by memcasecmp() are the ASCII ones on every byte value *)
+Definition case_tables_check (c : N) : bool :=
+  ((if c_isupper c then to_char (c_tolower c) else c) =? lower_byte c) &&
+  ((if c_islower c then to_char (c_toupper c) else c) =? upper_byte c) &&
+  (c_tolower_u c =? Z.of_N (lower_byte c))%Z.
+Theorem case_tables_ascii : forall c, c < 256 ->
+  (if c_isupper c then to_char (c_tolower c) else c) = lower_byte c /\
+  (if c_islower c then to_char (c_toupper c) else c) = upper_byte c /\
+  c_tolower_u c = Z.of_N (lower_byte c).
+Proof.
+  intros c Hc. pose proof (forallb_bytes case_tables_check ltac:(vm_compute; reflexivity) c Hc) as H.
+  unfold case_tables_check in H. apply andb_prop in H. destruct H as [H H3]. apply andb_prop in H. destruct H as [H1 H2].
+  apply N.eqb_eq in H1, H2. apply Z.eqb_eq in H3. auto.
+Qed.
+
+(* case-insensitive comparison = byte-wise comparison of the lower-cased values (bytes < 256) *)
+Theorem casecmp_is_cmp_of_lowercased : forall a b,
+  Forall (fun c => c < 256) a -> Forall (fun c => c < 256) b ->
+  cmp_with c_tolower_u a b = cmp_with Z.of_N (map lower_byte a) (map lower_byte b).
+Proof.
+  induction a as [|x a IH]; intros b Ha Hb; [reflexivity|]. destruct b as [|y b]; [reflexivity|].
+  inversion Ha; inversion Hb; subst. cbn [cmp_with map].
+  destruct (case_tables_ascii x ltac:(assumption)) as (_ & _ & ->).
+  destruct (case_tables_ascii y ltac:(assumption)) as (_ & _ & ->).
+  rewrite IH by assumption. reflexivity.
+Qed.
